@@ -2,6 +2,7 @@ package checks
 
 import (
 	"fmt"
+	"github.com/verily-src/fhirpath-go/fhirpath/system"
 	"github.com/verily-src/fhirpath-go/fhirpath/verifh/ftab"
 	"sort"
 	"strings"
@@ -325,6 +326,61 @@ func init() {
 										r.Fail("unimplemented-returns-result|in="+cx.name+"|"+name, core.W{"src": src3, "got": ev3.String()})
 									}
 								}
+							}
+						}
+					}
+				}},
+				{Name: "custom-functions", N: 4 * 2, Note: "functions entered into the table by AddFunction with 0..3 declared parameters x argument count 0..4 x 7 call positions x 2 configs: accepted exactly at the declared count, accepted calls evaluate without an arity complaint and reach the function with the arguments", Run: func(i int, r *core.Rec) {
+					np, c := i%4, cfgs[i/4]
+					var got []string
+					rec := func(args ...any) (system.Collection, error) {
+						got = append(got, fmt.Sprint(args...))
+						return system.Collection{system.Integer(int32(len(args)))}, nil
+					}
+					var fn any
+					switch np {
+					case 0:
+						fn = func(in system.Collection) (system.Collection, error) { return rec() }
+					case 1:
+						fn = func(in system.Collection, a system.Integer) (system.Collection, error) { return rec(a) }
+					case 2:
+						fn = func(in system.Collection, a, b system.Integer) (system.Collection, error) { return rec(a, b) }
+					case 3:
+						fn = func(in system.Collection, a, b, d system.Integer) (system.Collection, error) { return rec(a, b, d) }
+					}
+					for argc := 0; argc <= 4; argc++ {
+						call := "cf(" + strings.Join([]string{"1", "2", "3", "4"}[:argc], ", ") + ")"
+						for _, pos := range []struct{ name, src string }{
+							{"alone", call}, {"on-path", "Patient.name." + call}, {"left-operand", call + " = 9"}, {"right-operand", "9 = " + call},
+							{"indexer", "Patient.name.given[" + call + "]"}, {"criterion", "Patient.name.where(" + call + " = 9)"}, {"argument", "Patient.name.given.take(" + call + ")"},
+						} {
+							got = nil
+							opts := append(c.copts(), compopts.AddFunction("cf", fn))
+							res := lib.Compile(pos.src, opts...)
+							r.Eval()
+							r.State(fmt.Sprintf("custom|params=%d|argc=%d|%s", np, argc, pos.name))
+							r.Nontrivial("custom", c.name, fmt.Sprint(np, argc), pos.name, res.Class())
+							w := core.W{"declared_parameters": np, "src": pos.src, "config": c.name, "compile": res.Class()}
+							if res.Panic != nil {
+								r.Fail("custom-function|"+res.Panic.Key(), w)
+								continue
+							}
+							accepted := res.CompileErr == nil
+							if accepted != (argc == np) {
+								r.Fail(fmt.Sprintf("custom-function|acceptance|params=%d|argc=%d|%s|accepted=%v", np, argc, pos.name, accepted), w)
+							}
+							if !accepted {
+								continue
+							}
+							ev := lib.EvalOpts(res, []fhir.Resource{lib.Patient()})
+							r.Eval()
+							w["evaluate"] = core.Short(ev.String(), 160)
+							if ev.Panic != nil {
+								r.Fail("custom-function|"+ev.Panic.Key(), w)
+							} else if ev.Err != nil && ftab.IsArityError(ev.Err) {
+								r.Fail(fmt.Sprintf("custom-function|arity-complaint-at-evaluation|params=%d|argc=%d|%s", np, argc, pos.name), w)
+							} else if argc == np && ev.Err == nil && len(got) == 0 {
+								r.Fail(fmt.Sprintf("custom-function|never-called|params=%d|%s", np, pos.name), w)
 							}
 						}
 					}
